@@ -45,8 +45,8 @@ def ev1PublicKey (w : Ev1) (change addr : Nat) : R Bytes :=
   | none => do
     if change > 2 ^ 32 - 1 || addr > 2 ^ 32 - 1 then throw .value
     let s ← ev1Sequence w change addr
-    if s = 0 || s ≥ Prim.secp256k1.n then throw .value
-    match pubAddMulG .secp256k1 w.pub s with
+    if s % Prim.secp256k1.n = 0 then throw .value
+    match pubAddMulG .secp256k1 w.pub (s % Prim.secp256k1.n) with
     | some p => pure p
     | none => throw .value
 
